@@ -969,6 +969,10 @@ coap_send_rst(coap_session_t *session, const coap_pdu_t *request) {
 
 coap_mid_t
 coap_send_rst_lkd(coap_session_t *session, const coap_pdu_t *request) {
+  /* RFC 7252 8.1: MUST NOT return a Reset in reply to a NON received via multicast */
+  if (request && request->type == COAP_MESSAGE_NON &&
+      coap_is_mcast(&session->addr_info.local))
+    return COAP_INVALID_MID;
   return coap_send_message_type_lkd(session, request, COAP_MESSAGE_RST);
 }
 
